@@ -1,6 +1,6 @@
 (* C04 — Parameterized SQL agrees with inline SQL; all values travel as parameters.  (clause (a): placeholder count) *)
 Require Import Parser Render Api Shape Count.
-Require Import ParserShape2 RenderCount RenderCountP RenderParamTotal RenderTotal.
+Require Import ParserShape2 RenderCount RenderCountP RenderParamTotal RenderTotal RenderValues Values.
 From Coq Require Import List String Ascii.
 
 (* (a) on every tree of the parser's output shape whose range fields are columns (rfield_ok; a numeric field term in a closed
@@ -16,5 +16,13 @@ Proof. exact C04_count. Qed.
 Theorem C04_render_param_returns : forall (o2 : oracle2) (e : expr), wf true e = true -> is_ret (render_param o2 e).
 Proof. exact render_param_total. Qed.
 
+(* (b) the parameters are the query's values (Spec/Values.v: columns are not values, an unbounded range end is not a value,
+   a pattern matched with LIKE travels translated unless it is a /regexp/) in left-to-right order with their Go kinds,
+   on every tree of the parser's output shape *)
+Theorem C04_parameters_are_the_values : forall (o2 : oracle2) (e : expr) (t : string) (ps : list value),
+  wf true e = true -> render_param o2 e = Ret (t, ps, None) -> ps = vals_e e.
+Proof. exact render_param_values. Qed.
+
 Print Assumptions C04_placeholders_match_parameters.
+Print Assumptions C04_parameters_are_the_values.
 Print Assumptions C04_render_param_returns.
